@@ -35,6 +35,9 @@ def _run_one(args):
            "detectable": v.get("detectable", True)}
     try:
         overlay = v.get("overlay")
+        if overlay is None and v.get("transform"):
+            from .transforms import package_overlay
+            overlay = package_overlay(root, v["transform"])
         if overlay is None:
             path = os.path.join(root, v["file"])
             with open(path, encoding="utf-8") as fh:
@@ -107,9 +110,16 @@ def seeded_variants(prop, root):
     return out
 
 
+# whole-package behaviour-preserving rewrites every property's rules must be silent on
+GENERIC_EQUIV = [
+    {"name": "whole package reformatted (ast.unparse: layout, comments, parentheses, quotes)", "kind": "equiv", "transform": "reformat"},
+    {"name": "every function local renamed to an unrelated name (zqN_M) + reformatted", "kind": "equiv", "transform": "@"},
+]
+
+
 def audit(prop, root="/repo", jobs=None, seed=0):
     from .variants import VARIANTS
-    vs = [dict(v) for v in VARIANTS.get(prop, [])] + seeded_variants(prop, root)
+    vs = [dict(v) for v in VARIANTS.get(prop, [])] + seeded_variants(prop, root) + [dict(v) for v in GENERIC_EQUIV]
     if not vs:
         return {"audit": {"variants": 0, "note": "no variants registered for this property"}}
     base = _baseline_keys(prop, root)
